@@ -128,6 +128,9 @@ def has_pipelined_after_data(items, exps):
 
 
 def run_shard(ctx):
+    if ctx.thorough:
+        from vf import fuzz
+        fuzz.run(ctx, ID, 120, FUZZ_SEEDS)
     def one_grammar(v):
         items, cfg, cuts = v
         items2, exps, model = sm.predict(items, cfg)
@@ -160,3 +163,20 @@ def replay(case):
         lines = sm.build_stream(items2, exps)
         return judge(b''.join(lines), lines, cfg, cuts, items2, exps, model)
     return judge(bytes.fromhex(case['data']), [], cfg, cuts)
+
+
+# -- coverage-guided tier (atheris) ---------------------------------------------------------------------
+
+def fuzz_target(data):
+    if len(data) < 4:
+        return None, []
+    cfg = Config(auth=bool(data[0] & 1), size=(1000 if data[0] & 2 else None), starttls=False,
+                 layer='edge' if data[0] & 4 else 'bare')
+    cuts = [[c * 3 for c in data[1:3]], [data[3] * 7]]
+    stream = data[4:]
+    return {'kind': 'bytes', 'cfg': cfg.json(), 'data': stream.hex(), 'cuts': cuts}, judge(stream, [], cfg, cuts)
+
+
+FUZZ_SEEDS = [b'\x00\x05\x09\x03EHLO c\r\nMAIL FROM:<a@b>\r\nRCPT TO:<c@d>\r\nDATA\r\nx\r\n.\r\nNOOP\r\nQUIT\r\n',
+              b'\x02\x01\x02\x03EHLO c\r\nMAIL FROM:<a@b>\r\nRCPT TO:<c@d>\r\nDATA\r\n.\r\nRSET\r\n',
+              b'\x04\x07\x08\x01HELO c\r\nMAIL FROM:<>\r\nRCPT TO:<c@d>\r\nDATA\r\n..\r\n.\r\nQUIT\r\n']
